@@ -286,10 +286,11 @@ theorem relog_mono (b : Mbox) (h : (b.links.map (·.uid)).Pairwise (· < ·)) :
 
 theorem inv_renameInbox (s : Store) (n : Bytes) (now : Nat) (ib : Mbox) (hi : Inv s)
     (hf : s.find inboxName = some ib) (hn : s.has n = false) :
-    let nb : Mbox := { name := n, validity := now, uidNext := ib.uidNext, links := ib.links, inc := s.nextInc }
+    let nb : Mbox := { name := n, validity := s.freshValidity now, uidNext := ib.uidNext, links := ib.links, inc := s.nextInc }
     Inv { s with boxes := (s.boxes.map (fun b => if b.name = inboxName then { b with links := [] } else b)) ++ [nb]
                  nextInc := s.nextInc + 1
-                 log := relog nb ++ s.log } := by
+                 log := relog nb ++ s.log
+                 vseq := s.freshValidity now } := by
   intro nb
   have hib := find_mem hf
   have okib := hi.box ib hib
